@@ -75,14 +75,28 @@ def run(tier):
     # (ii) builtin x argument catalogue
     pairs, triples = (3, 800) if tier == "quick" else (100, 20000)
     npth, pp = os.path.join(wd, "ncalls.ndjson"), os.path.join(wd, "progress")
-    rc, _, err = C.run_vh(["record", "natcat", npth, "--seed", str(C.seed()), "--pairs", str(pairs), "--triples", str(triples),
-                           "--progress", pp], check=False, timeout=3000)
-    calls = C.ndjson_read(npth) if os.path.exists(npth) else []
-    if rc != 0:
-        src = open(pp).read().strip() if os.path.exists(pp) else "?"
+    calls = []
+    skip = 0
+    crashes = 0
+    while True:
+        if os.path.exists(npth):
+            os.remove(npth)
+        rc, _, err = C.run_vh(["record", "natcat", npth, "--seed", str(C.seed()), "--pairs", str(pairs), "--triples", str(triples),
+                               "--progress", pp, "--skip", str(skip)], check=False, timeout=3000)
+        calls += C.ndjson_read(npth) if os.path.exists(npth) else []
+        if rc == 0:
+            break
+        # the child died (abort / stack overflow / watchdog): the call in the progress file is the culprit;
+        # record it and carry on with the next call in a fresh process
+        crashes += 1
+        prog = open(pp).read().strip() if os.path.exists(pp) else "0\t?"
+        idx, _, src = prog.partition("\t")
         verdict.disagree({"what": "hang" if rc == 97 else "abort", "engine": "ncall", "target": src.split("(")[0].split(".")[-1]},
                          {"call": src, "rc": rc, "stderr": err[-1000:]})
-    if len(calls) < 2000:
+        skip = int(idx) if idx.isdigit() else skip + 1
+        if crashes >= 25:
+            break
+    if len(calls) < 2000 and crashes == 0:
         raise C.ToolError("catalogue run produced only %d calls" % len(calls))
     st2, bad2, states2 = S.judge_rows(calls, wd, "c07n", chunks=8, module="Trace_Session", cfg="Trace_Session.cfg")
     byc = {r["id"]: r for r in calls}
